@@ -85,6 +85,7 @@ func Run(a Matrix, args ...interface{}) (Matrix, Matrix, error) {
     if u, v := r.Dims(); u != n || v != m {
       return nil, nil, fmt.Errorf("r has invalid dimension (%dx%d instead of %dx%d)", u, v, n, m)
     }
+    r.Map(func(x Scalar) { x.SetFloat64(0.0) })
   }
   return gramSchmidt(a, q, r, t, n, m)
 }
